@@ -494,6 +494,17 @@ func propC18(j *Job) {
 			}
 		}
 	}
+	for mi, mode := range modes {
+		if mi > 0 && !j.Thorough() {
+			break
+		}
+		for _, clr := range []bool{false, true} {
+			j.Explore(fmt.Sprintf("DX/%s/clear%v", mode.Name, clr), extendAtExpiryScenario(withBase(mode.A, 228, 3, 4000), withBase(mode.B, 228, 4, 4000), clr), Budget{D: 2}, nil)
+			if j.capped() {
+				return
+			}
+		}
+	}
 	for _, mode := range modes {
 		for _, inb := range []bool{false, true} {
 			j.Explore(fmt.Sprintf("PPI/%s/inbound%v", mode.Name, inb), defaultPPIScenario(withBase(mode.A, 228, 3, 4000), withBase(mode.B, 228, 4, 4000), inb), Budget{}, nil)
@@ -644,6 +655,59 @@ func defaultPPIScenario(a, b epCfg, inboundFirst bool) *Scenario {
 			}
 			m.Observe("ok")
 			m.CloseBoth()
+		},
+		Final: func(m *Sim, x *Exec) { generalVerdicts(m, x, true) },
+	}
+}
+
+// extendAtExpiryScenario: the keep-alive pattern SetReadDeadline(now+X); Read() where the
+// extension lands on the very instant the previous deadline expires.  The new deadline is
+// what counts: the read blocks until the message arrives and returns it.
+func extendAtExpiryScenario(a, b epCfg, clear bool) *Scenario {
+	return &Scenario{
+		Name:    "readdeadline-extend",
+		Horizon: 60 * time.Second,
+		Setup:   func(m *Sim) { m.S.SuspendTimers = true },
+		Body: func(m *Sim) {
+			if !m.Connect(a, b) {
+				m.Failf("connect", "handshake failed")
+				m.closeFailedTransports()
+				m.CloseBoth()
+				return
+			}
+			sa, _ := m.As[0].OpenStream(1, PayloadTypeWebRTCBinary)
+			sb, _ := m.As[1].OpenStream(1, PayloadTypeWebRTCBinary)
+			m.streamsSeen = append(m.streamsSeen, sa, sb)
+			msg := payload(1, 0, 33)
+			var rn int
+			var rerr error
+			var at time.Duration
+			rd := m.Go("reader", func() {
+				_ = sb.SetReadDeadline(time.Now().Add(100 * time.Millisecond))
+				m.Sleep(100 * time.Millisecond)
+				if clear {
+					_ = sb.SetReadDeadline(time.Time{})
+				} else {
+					_ = sb.SetReadDeadline(time.Now().Add(time.Hour))
+				}
+				buf := make([]byte, 200)
+				rn, _, rerr = sb.ReadSCTP(buf)
+				at = m.S.Now()
+				if rerr == nil && string(buf[:rn]) != string(msg) {
+					m.Failf("deadline.delivery", "read returned other bytes than were written")
+				}
+			})
+			m.Sleep(150 * time.Millisecond)
+			_, _ = sa.WriteSCTP(msg, PayloadTypeWebRTCBinary)
+			ok := m.WaitUntil("reader-done", 10*time.Second, func() bool { return rd.Done })
+			if !ok {
+				m.Failf("deadline.delivery", "reader still blocked 10 s after the message was written")
+			} else if rerr != nil {
+				m.Failf("deadline.stale", "the read deadline was replaced at the instant it expired; the read under the new deadline returned %v at %v instead of the message written at 150 ms (the cancelled deadline still fired)", rerr, at)
+			}
+			m.Observe("err=%v", rerr)
+			m.CloseBoth()
+			m.S.Join(rd)
 		},
 		Final: func(m *Sim, x *Exec) { generalVerdicts(m, x, true) },
 	}
